@@ -3,17 +3,17 @@
 # result: /tmp/seed/val/<PROP>_<X>.txt
 P=$1; X=$2
 OUT=/tmp/seed/val; mkdir -p $OUT
-R=$OUT/${P}_$X.txt
+R=$OUT/${SEED_TAG:-}${P}_$X.txt
 WT=/tmp/seed/valwt_$$
 exec 9>/tmp/seed/val.lock; flock 9
 git -C /repo worktree add -q --detach $WT HEAD || exit 2
 cd $WT
 {
 echo "== $P $X on $(git rev-parse --short HEAD)"
-echo "-- demo on clean tree:"; PYTHONPATH=$WT timeout 120 /venv/bin/python /tmp/seed/out/$P/demo$X.py 2>&1 | tail -3; echo "exit=$?"
-if git apply /tmp/seed/out/$P/mut$X.diff 2>/tmp/seed/val/apply_$$.err || git apply --3way /tmp/seed/out/$P/mut$X.diff 2>>/tmp/seed/val/apply_$$.err; then
+echo "-- demo on clean tree:"; PYTHONPATH=$WT timeout 120 /venv/bin/python ${SEED_OUT:-/tmp/seed/out}/$P/demo$X.py 2>&1 | tail -3; echo "exit=$?"
+if git apply ${SEED_OUT:-/tmp/seed/out}/$P/mut$X.diff 2>/tmp/seed/val/apply_$$.err || git apply --3way ${SEED_OUT:-/tmp/seed/out}/$P/mut$X.diff 2>>/tmp/seed/val/apply_$$.err; then
   echo "-- patch applied"; git diff --stat | tail -1
-  echo "-- demo on mutated tree:"; PYTHONPATH=$WT timeout 120 /venv/bin/python /tmp/seed/out/$P/demo$X.py > /tmp/seed/val/demo_$$.out 2>&1; echo "exit=$?"; tail -3 /tmp/seed/val/demo_$$.out
+  echo "-- demo on mutated tree:"; PYTHONPATH=$WT timeout 120 /venv/bin/python ${SEED_OUT:-/tmp/seed/out}/$P/demo$X.py > /tmp/seed/val/demo_$$.out 2>&1; echo "exit=$?"; tail -3 /tmp/seed/val/demo_$$.out
   echo "-- suite on mutated tree:"; PYTHONPATH=$WT timeout 1500 /venv/bin/python -m pytest -q -p no:cacheprovider --timeout=900 2>&1 | grep -aE "^(FAILED|ERROR)|passed|failed" | tail -8
 else
   echo "-- PATCH DOES NOT APPLY"; cat /tmp/seed/val/apply_$$.err
